@@ -72,6 +72,24 @@ def basis_tol(name, k, eps, power_form=True):
     return 100.0 * eps * b
 
 
+LOWPREC_C = 4.0
+
+
+def basis_tol_lowprec(k, eps):
+    """Absolute tolerance for row k (degree d) of a basis returned in a precision below float64 (unit roundoff eps),
+    compared with the textbook value at the *stored* abscissa.
+
+    A degree-d basis function on [-1, 1] has |f'| <= d^2, so an evaluation whose intermediate quantities carry
+    eps-sized relative perturbations (a three-term recurrence or repeated multiplication carried out in that
+    precision) is off by at most ~d^2*eps; rounding the final value costs eps/4.  Tolerance LOWPREC_C * eps * max(d^2, 1).
+    Measured on the unchanged code (float32 and float16, 80 000 abscissae, orders 0..13): <= 0.3 eps for the
+    Legendre/Chebyshev rows (evaluated in double, rounded once), <= 0.17 d eps for powers, <= 0.16 d^2 eps for the
+    split basis (float32 recurrence) - i.e. >= 25x below the tolerance; a power-form expansion carried out in the low
+    precision is off by 80 (d=7) ... 5000 (d=12) eps."""
+    d = max(k, 1)
+    return LOWPREC_C * eps * float(d * d)
+
+
 def xnorm(x, xmin, xmax, jump=None):
     """Normalised abscissa of a trace set: x (plus the fraction of the BOSS jump already passed) mapped affinely
     so that [xmin, xmax] -> [-1, 1]."""
